@@ -44,6 +44,9 @@ type mnode struct {
 // c10lookalikes counts children named by the application in the style of a generated name
 var c10lookalikes int
 
+// c10closedInTree counts Close() calls on loggers of the model tree that own no writers
+var c10closedInTree int
+
 type sharedAttrsT struct {
 	attrs slog.Attrs
 	kvs   []srcKV
@@ -348,6 +351,15 @@ func (e *c10env) ops() []c10op {
 					}
 				}
 			}()
+			return nil, t.e, false
+		}},
+		{"Close() on a logger of the tree that owns no writers", func(e *c10env, t *mnode) (*mnode, *slog.Entry, bool) {
+			// the usual `defer l.Close()` on a derived or request-scoped logger: it owns nothing that could be closed. The
+			// logger stays where it was created; Parent, Root, Sublogger and Each find it and what lies below it
+			if t.normal == nil && t.errs == nil && t.depth > 0 {
+				t.e.Close()
+				c10closedInTree++
+			}
 			return nil, t.e, false
 		}},
 		{"Close() a throwaway logger that never got writers", func(e *c10env, t *mnode) (*mnode, *slog.Entry, bool) {
@@ -824,6 +836,13 @@ func c10tree(c *Ctx) {
 			}
 		}
 		ops := e.ops()
+		// (the Close of a writer-less logger of the tree is an everyday operation: it is drawn three times as often)
+		for _, o := range ops {
+			if o.name == "Close() on a logger of the tree that owns no writers" {
+				ops = append(ops, o, o)
+				break
+			}
+		}
 		nops := r.Range(5, 60)
 		var history []string
 		snapshot := func() map[*mnode][2]string {
@@ -849,6 +868,9 @@ func c10tree(c *Ctx) {
 			c.R.JournalNote(history[len(history)-1])
 			created, ret, mutates := op.apply(e, t)
 			c.R.Add("operations", 1)
+			if op.name == "Close() on a logger of the tree that owns no writers" {
+				c.R.Max("Close_calls_on_loggers_of_the_tree_that_own_no_writers", int64(c10closedInTree))
+			}
 			if op.name == "Close() a throwaway logger that never got writers" {
 				c.R.Add("Close_calls_on_a_logger_that_never_got_writers", 1)
 			}
